@@ -11,7 +11,7 @@ GEN = ['States']
 PROPS = ['C10'] + ['C01']
 
 MANIFEST = {
-    'level_text': 'Coq theorems (all programs/states/events/histories): no task execution is created while PAUSED by any event except resume, the pause is held, results are still recorded and final; "resume reaches the same result as the unpaused run" and the sub-workflow clauses are not proved: trace correspondence with pause/resume at random positions plus oracle (no creation while PAUSED on committed states; quiescent => final after resume).',
+    'level_text': 'Coq theorems (all programs/states/events/histories): no task execution is created while PAUSED by any event except resume, the pause is held, results are still recorded and final; a join-free run with pauses/resumes/stops anywhere never hangs; "resume reaches the same result as the unpaused run" is proved for join-free forward command-free definitions with constant guards (same executions per task, same final task states, same workflow state; C10_pause_resume_same_result_simple) and not proved beyond that class nor for the output, the sub-workflow clauses are not proved: trace correspondence with pause/resume at random positions plus oracle (no creation while PAUSED on committed states; quiescent => final after resume).',
     'level_note': 'Model = control-flow core of the engine (one direct-workflow execution, action tasks, joins all/one/N, on-success/on-error/on-complete with guards whose value is part of the program, engine commands fail/succeed/pause/noop, operator pause/resume/stop/rerun/skip, duplicate deliveries). One event = one committed transaction (tx_lock); data flow, policies, with-items and sub-workflows are outside this model (component models / oracles). Trusted: the harness interception points (rpc client, executor, post_tx_queue threads, scheduler rows, clock, uuid source), view abstraction, Gen/States translator.',
     'technique': 'Coq per-step + history induction; trace correspondence with pause/resume injection; oracle',
     'design_ref': '6 C10, 4, 5',
